@@ -10,9 +10,9 @@
      write_locally_then_move / lsst.resources transfer_from), BEFORE dataset_location / file_datastore_records rows are
      inserted, all inside the one transaction opened by Butler.put / ingest / transfer_from;
    * removal = one transaction that moves dataset_location rows to dataset_location_trash (and deletes registry rows),
-     then emptyTrash: delete files, then DELETE file_datastore_records in ITS OWN transaction, then DELETE
-     dataset_location_trash in ANOTHER transaction;  emptyTrash only sees trash rows that still have a
-     file_datastore_records row (inner join in MonolithicDatastoreRegistryBridge.emptyTrash).
+     then emptyTrash: delete files, then DELETE file_datastore_records and DELETE dataset_location_trash in one
+     transaction (since /repo e615ec5; `plan_empty_two_commits` is the earlier order);  emptyTrash only sees trash rows
+     that still have a file_datastore_records row (inner join in MonolithicDatastoreRegistryBridge.emptyTrash).
    No proofs in this file. *)
 From Coq Require Import NArith List Bool.
 Import ListNotations.
@@ -151,8 +151,18 @@ Fixpoint write_all (t : N) (value : N -> N) (l : list N) : list step :=
   | d :: r => write_artifact t d (value d) ++ write_all (t + 1) value r
   end.
 
-(* emptyTrash as it is written: only trash rows that still have records are seen *)
+(* emptyTrash as it is written (after /repo e615ec5): only trash rows that still have records are seen (inner join); the
+   artifacts are deleted first, then the records rows AND the trash rows are deleted in ONE transaction *)
 Definition plan_empty (b : db) (ord : list N) : list step :=
+  let rows := order_by ord (inter (d_trash b) (d_recs b)) in
+  match rows with
+  | [] => []
+  | _ => map (fun d => FsDelete (Final d)) rows
+         ++ [SqlBegin; SqlStmt (DelRecords rows); SqlStmt (DelTrash rows); SqlCommit]
+  end.
+
+(* the variant before e615ec5: two separately committed deletes (kept only to show what the repair bought) *)
+Definition plan_empty_two_commits (b : db) (ord : list N) : list step :=
   let rows := order_by ord (inter (d_trash b) (d_recs b)) in
   match rows with
   | [] => []
@@ -243,6 +253,15 @@ Definition plan (s : state) (o : op) : list step :=
   | (p, None) => p
   end.
 
+(* the same with the two-commit emptyTrash *)
+Definition plan_two_commits (s : state) (o : op) : list step :=
+  match plan_body s o with
+  | (p, Some b') => p ++ plan_empty_two_commits b' (op_ord o)
+  | (p, None) => p
+  end.
+Definition run_op_two_commits (s : state) (o : op) : state :=
+  recover (run_steps (recover s) (plan_two_commits (recover s) o)).
+
 Definition run_op (s : state) (o : op) : state := recover (run_steps (recover s) (plan (recover s) o)).
 Definition run (s : state) (h : list op) : state := fold_left run_op h s.
 
@@ -275,6 +294,9 @@ Definition is_target (s : state) (o : op) (d : N) : bool :=
   | RemoveRuns r _ => run_of d =? r
   | EmptyTrash _ => mem d (d_trash (cdb s))
   end.
+
+Definition is_removal (o : op) : bool :=
+  match o with Prune _ _ | Unstore _ _ | Trash _ | RemoveRuns _ _ | EmptyTrash _ => true | _ => false end.
 
 Definition is_insert (o : op) : bool :=
   match o with Put _ _ | IngestCopy _ | IngestMove _ | Transfer _ => true | _ => false end.
